@@ -939,6 +939,10 @@ def norm_index(ex, n, i, what='index'):
 
 
 def getitem(ex, obj, idx):
+    if isinstance(idx, SBool):
+        idx = SInt(zint(idx))
+    elif isinstance(idx, bool):
+        idx = int(idx)
     if isinstance(obj, SBytes):
         if isinstance(idx, slice):
             return bytes_slice(ex, obj, idx)
